@@ -124,6 +124,16 @@ func (vc *VC) evalCallWith(st *State, call *ast.CallExpr, preRecv *Term, preArgs
 	if callee == nil {
 		vc.fail(call, "cannot resolve callee of %s", exprString(call))
 	}
+	// a method of a type-parameter constraint / interface called on a receiver whose (substituted) type is
+	// concrete: dispatch statically to the concrete method
+	if recv != nil {
+		if csig := callee.Type().(*types.Signature); csig.Recv() != nil && isInterface(csig.Recv().Type()) && !isInterface(recv.T) {
+			obj, _, _ := types.LookupFieldOrMethod(recv.T, true, vc.pkg, callee.Name())
+			if cm, ok := obj.(*types.Func); ok {
+				callee = cm
+			}
+		}
+	}
 	// receiver adjustment: method with pointer receiver called on addressable value, or value receiver on pointer
 	sig := callee.Type().(*types.Signature)
 	if recv != nil && sig.Recv() != nil {
@@ -582,12 +592,53 @@ func (vc *VC) immutableHeap(h string) bool {
 	return vc.p.con.Immutable[name]
 }
 
-// evalWriteTargets maps write clauses to (heap name -> refs).
+// evalWriteTargets maps write clauses to (heap name -> membership conditions over the bound variable r!f).
 func (vc *VC) evalWriteTargets(env *SpecEnv, writes []*Clause) map[string][]string {
 	out := map[string][]string{}
-	add := func(h, ref string) { out[h] = append(out[h], ref) }
 	for _, w := range writes {
-		e := w.Expr
+		vc.evalWriteTarget(env, w.Expr, w.Text, func(h, ref string) { out[h] = append(out[h], eq("r!f", ref)) },
+			func(h, cond string) { out[h] = append(out[h], cond) })
+	}
+	return out
+}
+
+func (vc *VC) evalWriteTarget(env *SpecEnv, e ast.Expr, text string, add func(h, ref string), addCond func(h, cond string)) {
+	{
+		w := &Clause{Text: text}
+		// each(i, lo, hi, target): the targets for every i in [lo, hi)
+		if ce, ok := e.(*ast.CallExpr); ok {
+			if id, ok := ce.Fun.(*ast.Ident); ok && id.Name == "each" && len(ce.Args) == 4 {
+				name := ce.Args[0].(*ast.Ident).Name
+				lo, hi := env.eval(ce.Args[1]), env.eval(ce.Args[2])
+				env.depth++
+				bv := fmt.Sprintf("%s!w%d", sanitize(name), env.depth)
+				inner := env.with(map[string]Term{name: intTerm(bv)})
+				vc.evalWriteTarget(inner, ce.Args[3], text, func(h, ref string) {
+					addCond(h, fmt.Sprintf("(exists ((%s Int)) (and (<= %s %s) (< %s %s) (= r!f %s)))", bv, lo.S, bv, bv, hi.S, ref))
+				}, func(h, cond string) {
+					addCond(h, fmt.Sprintf("(exists ((%s Int)) (and (<= %s %s) (< %s %s) %s))", bv, lo.S, bv, bv, hi.S, cond))
+				})
+				env.depth--
+				return
+			}
+			if id, ok := ce.Fun.(*ast.Ident); ok && id.Name == "eachkey" && len(ce.Args) == 3 {
+				// eachkey(k, m, target): for every key k of map m
+				name := ce.Args[0].(*ast.Ident).Name
+				m := env.eval(ce.Args[1])
+				mi := vc.mapInfo(m.T)
+				env.depth++
+				bv := fmt.Sprintf("%s!w%d", sanitize(name), env.depth)
+				inner := env.with(map[string]Term{name: vc.mk(bv, mi.K)})
+				dom := vc.mapDom(env.st, mi, m.S)
+				vc.evalWriteTarget(inner, ce.Args[2], text, func(h, ref string) {
+					addCond(h, fmt.Sprintf("(exists ((%s %s)) (and (select %s %s) (= r!f %s)))", bv, mi.ks, dom, bv, ref))
+				}, func(h, cond string) {
+					addCond(h, fmt.Sprintf("(exists ((%s %s)) (and (select %s %s) %s))", bv, mi.ks, dom, bv, cond))
+				})
+				env.depth--
+				return
+			}
+		}
 		// fields(x): every field of *x
 		if ce, ok := e.(*ast.CallExpr); ok {
 			if id, ok := ce.Fun.(*ast.Ident); ok && id.Name == "fields" {
@@ -603,14 +654,14 @@ func (vc *VC) evalWriteTargets(env *SpecEnv, writes []*Clause) map[string][]stri
 					vc.heapGet(env.st, name, sortName, vc.ts.apply(stt.Field(i).Type()))
 					add(name, x.S)
 				}
-				continue
+				return
 			}
 			if id, ok := ce.Fun.(*ast.Ident); ok && id.Name == "ghost" {
 				// ghost(name, ref)
 				name := "G$" + ce.Args[0].(*ast.Ident).Name
 				x := env.eval(ce.Args[1])
 				add(name, x.S)
-				continue
+				return
 			}
 		}
 		if se, ok := e.(*ast.SelectorExpr); ok {
@@ -628,7 +679,7 @@ func (vc *VC) evalWriteTargets(env *SpecEnv, writes []*Clause) map[string][]stri
 					}
 				}
 				if found {
-					continue
+					return
 				}
 			}
 		}
@@ -647,7 +698,7 @@ func (vc *VC) evalWriteTargets(env *SpecEnv, writes []*Clause) map[string][]stri
 				vc.heapGet(env.st, name, sortName, et)
 				add(name, p.S)
 			}
-			continue
+			return
 		}
 		x := env.eval(e)
 		switch under(x.T).(type) {
@@ -669,7 +720,6 @@ func (vc *VC) evalWriteTargets(env *SpecEnv, writes []*Clause) map[string][]stri
 			vc.specFail(e, "unsupported write target %s", w.Text)
 		}
 	}
-	return out
 }
 
 // ---------------------------------------------------------------------------------------
